@@ -7,28 +7,72 @@ open AwsVerif.ThreadSched
 
 variable {progs : List (List Op)} {s s' : Sys}
 
-theorem InvT.frame (h : InvT progs s)
-    (hp : places s' = places s) (hs : s'.scheduled = s.scheduled) (hc : s'.clients = s.clients)
+theorem InvT.frame (h : InvT s)
+    (hp : places s' = places s) (hs : s'.scheduled = s.scheduled)
     (hi : s'.inner = s.inner) (ht : s'.tsOf = s.tsOf) (hl : s'.log = s.log)
-    (hd : s'.destroyer = s.destroyer) : InvT progs s' := by
-  refine ⟨h.wf1, ?_, ?_, ?_, ?_, ?_⟩
+    (hd : s'.destroyer = s.destroyer) (hclock : s.clock ≤ s'.clock)
+    (hex : s'.st.pc ≠ .exited → s.st.pc ≠ .exited) : InvT s' := by
+  refine ⟨?_, ?_, ?_, ?_, ?_⟩
   · intro t; rw [hp, hs]; exact h.cntPlaces t
-  · intro t; unfold pendAll; rw [hs, hc]; exact h.cntSched t
   · intro t; unfold innerTasks; rw [hi]; exact h.flagInv t
   · intro t ht'; rw [hi] at ht'; rw [ht]; exact h.asapTs t ht'
   · intro e he; rw [hl] at he; have := h.logInv e he
     unfold logOk at *; rw [hd, ht]; exact this
+  · intro hne t ht'; rw [hi] at ht'; rw [ht]; have := h.runTs (hex hne) t ht'; omega
+
+/-- nothing pushed, nobody's pending targets changed, nobody invoked -/
+theorem InvP.frame (h : InvP progs s) (hs : s'.scheduled = s.scheduled)
+    (hcp : ∀ a, (clientPend s').count a = (clientPend s).count a) (hpp : pcPendS s'.st = pcPendS s.st)
+    (hcbs : s'.cbs = s.cbs) (hl : s'.log = s.log) : InvP progs s' := by
+  constructor
+  · intro t; have := h.cntSched t
+    simp only [pendAll, logTasks, List.count_append, hs, hcp, hpp, hcbs, hl] at this ⊢; exact this
+  · intro t; rw [hs, hcp]; exact h.cntProg t
+
+theorem InvP.sched_le (h : InvP progs s) (a : Task) : s.scheduled.count a ≤ 1 := by
+  have := h.cntSched a; omega
 
 theorem InvK.frame (h : InvK s) (hr : recs s' = recs s) (hf : s'.freed = s.freed)
     (hn : s'.nextRec = s.nextRec) : InvK s' := by
   constructor; intro id; rw [hr, hf, hn]; exact h.recCount id
 
+def earlyPhase : CPc → Bool
+  | .dStore | .dNotify | .dJoin => true
+  | _ => false
+
+/-- every later phase of the destroy callback comes after the join -/
+theorem phaseOk_exited {pc : CPc} (h : phaseOk s pc) (he : earlyPhase pc = false) : s.st.pc = .exited := by
+  cases pc with
+  | dStore => simp [earlyPhase] at he
+  | dNotify => simp [earlyPhase] at he
+  | dJoin => simp [earlyPhase] at he
+  | idle => exact h.2.1
+  | dDrainQ => exact h.1.2
+  | dDrainC => exact h.1.2
+  | dCleanUp => exact h.1.2
+  | dSweep => exact h.1.2
+  | dFree => exact h.1.2
+  | dcbLock op ret => cases ret <;> exact h.1.2
+  | dcbBody op ret => cases ret <;> exact h.1.2
+  | dcbUnlock ret => cases ret <;> exact h.1.2
+  | dcbNotify ret => cases ret <;> exact h.1.2
+  | sBody t τ => exact absurd h (by simp [phaseOk])
+  | cBody t => exact absurd h (by simp [phaseOk])
+  | unlock => exact absurd h (by simp [phaseOk])
+  | notify => exact absurd h (by simp [phaseOk])
+
+theorem phaseOk_early {pc : CPc} (he : earlyPhase pc = true) :
+    phaseOk s pc = (s.released = false ∧ s.sweeping = false) := by
+  cases pc <;> simp [earlyPhase] at he <;> rfl
+
 /-- a scheduler-thread step touches none of the shutdown state except its own program counter -/
 theorem InvR.frameSched (h : InvR s) (hne : s.st.pc ≠ .exited)
     (hc : s'.clients = s.clients) (hrc : s'.refCount = s.refCount) (hd : s'.destroyer = s.destroyer)
     (hrel : s'.released = s.released) (hse : s'.shouldExit = s.shouldExit)
-    (hex : s'.st.pc = .exited → s.shouldExit = true) : InvR s' := by
-  refine ⟨?_, ?_, ?_, ?_, ?_, ?_, ?_, ?_⟩
+    (hsw : s'.sweeping = s.sweeping) (hmis : s'.misuse = s.misuse)
+    (hex : s'.st.pc = .exited → s.shouldExit = true)
+    (hrun : runningPhase s'.st.pc = false → s.sweeping = false → s'.inner.running = []) : InvR s' := by
+  refine ⟨?_, ?_, ?_, ?_, ?_, ?_, ?_, ?_, ?_, ?_, ?_⟩
   · rw [hrc, hc]; exact h.refSum
   · rw [hc]; exact h.cwf
   · rw [hc, hd]; exact h.dIn
@@ -37,14 +81,19 @@ theorem InvR.frameSched (h : InvR s) (hne : s.st.pc ≠ .exited)
   · intro j c hdj hcj
     rw [hd] at hdj; rw [hc] at hcj
     have := h.dPhase j c hdj hcj
-    cases hp : c.pc <;> simp only [hp, phaseOk] at this ⊢ <;>
-      first
-        | (rw [hrel]; exact this)
-        | exact this
-        | (exact absurd this.2.1 hne)
-        | (exact absurd this.2 hne)
+    cases he : earlyPhase c.pc with
+    | false => exact absurd (phaseOk_exited this he) hne
+    | true => rw [phaseOk_early he] at this ⊢; rw [hrel, hsw]; exact this
   · rw [hrel, hd]; exact h.relD
   · rw [hse, hd]; exact ⟨hex, h.exitFlag.2⟩
+  · rw [hsw]; exact hrun
+  · rw [hsw, hd]; exact h.sweepD
+  · rw [hmis, hd]; exact h.misuseD
+
+theorem InvR.runInv_same (h : InvR s) (hi : s'.inner.running = s.inner.running)
+    (hph : runningPhase s'.st.pc = false → runningPhase s.st.pc = false) :
+    runningPhase s'.st.pc = false → s.sweeping = false → s'.inner.running = [] := by
+  intro h1 h2; rw [hi]; exact h.runInv (hph h1) h2
 
 theorem InvM.frameSched (h : InvM s) (hclock : s.clock ≤ s'.clock) (hnow : s'.st.now ≤ s.st.now ∨ s'.st.now = s.clock)
     (hcl : s'.clients = s.clients) (hcpy : cpyOk s'.st)
@@ -58,30 +107,25 @@ theorem InvM.frameSched (h : InvM s) (hclock : s.clock ≤ s'.clock) (hnow : s'.
     · omega
     · exact h.mutexB k ((hmO k k0).mp hk)
 
-theorem InvT.sched_le (h : InvT progs s) (a : Task) : s.scheduled.count a ≤ 1 := by
-  have := h.cntSched a; have := h.wf1 a; omega
-
 /-- `s_process_cancellation` on a state `s1` from which the record `r` has just been popped
 (so a task that lives only in `r` is momentarily not in `places s1`) -/
 theorem procRec_T (thr : Nat) (r : CRec) (s1 : Sys)
-    (wf1 : ∀ t, (allTasks progs).count t ≤ 1)
     (hcnt : ∀ a, (places s1).count a + (if r.removed = true ∧ r.task = a then 1 else 0) = s1.scheduled.count a)
-    (hsch : ∀ t, s1.scheduled.count t + (pendAll s1).count t = (allTasks progs).count t)
+    (hle : ∀ a, s1.scheduled.count a ≤ 1)
     (hfl : ∀ u, s1.inner.flag u = true ↔ u ∈ innerTasks s1)
     (hasap : ∀ t ∈ s1.inner.asap, s1.tsOf t = 0)
     (hlog : ∀ e ∈ s1.log, logOk s1 e)
+    (hrun : s1.st.pc ≠ .exited → ∀ t ∈ s1.inner.running, s1.tsOf t ≤ s1.clock)
     (hthr : thr = 0 ∨ s1.destroyer = some thr) :
-    InvT progs (procRec Cfg.fixed thr s1 r) := by
-  have hle : ∀ a, s1.scheduled.count a ≤ 1 := by
-    intro a; have := hsch a; have := wf1 a; omega
+    InvT (procRec Cfg.fixed thr s1 r) := by
   unfold procRec
-  by_cases hc : (r.removed || s1.inner.flag r.task || !Cfg.fixed.guardCancel) = true
+  by_cases hc : procGuard Cfg.fixed s1 r = true
   · rw [if_pos hc]
-    simp [Cfg.fixed] at hc
+    simp [procGuard, Cfg.fixed] at hc
     have hin : (innerT s1.inner).count r.task ≤ 1 := by
       have := hcnt r.task; have := hle r.task
       simp only [places, innerTasks, innerT, List.count_append] at *; omega
-    refine ⟨wf1, ?_, hsch, ?_, ?_, ?_⟩
+    refine ⟨?_, ?_, ?_, ?_, ?_⟩
     · intro a
       have e1 := hcnt a; have e3 := hle a
       have e4 := count_cancel s1.inner r.task a
@@ -107,14 +151,30 @@ theorem procRec_T (thr : Nat) (r : CRec) (s1 : Sys)
         rcases hthr with h0 | h0
         · exact Or.inl h0
         · exact Or.inr ⟨rfl, h0⟩
+    · intro hne u hu; exact hrun hne u (running_cancel s1.inner r.task u hu)
   · rw [if_neg hc]
-    simp [Cfg.fixed] at hc
-    refine ⟨wf1, ?_, hsch, hfl, hasap, hlog⟩
+    simp [procGuard, Cfg.fixed] at hc
+    refine ⟨?_, hfl, hasap, hlog, hrun⟩
     intro a
     have e1 := hcnt a
     simp only [hc.1, Bool.false_eq_true, false_and, if_false, Nat.add_zero] at e1
     exact e1
 
+/-- the task `procRec` invokes was not invoked before -/
+theorem procRec_fresh (r : CRec) (s1 : Sys)
+    (hcnt : ∀ a, (places s1).count a + (if r.removed = true ∧ r.task = a then 1 else 0) = s1.scheduled.count a)
+    (hle : ∀ a, s1.scheduled.count a ≤ 1)
+    (hfl : ∀ u, s1.inner.flag u = true ↔ u ∈ innerTasks s1)
+    (hg : procGuard Cfg.fixed s1 r = true) : r.task ∉ logTasks s1 := by
+  intro hin
+  have h1 := List.count_pos_iff.mpr hin
+  have e1 := hcnt r.task; have e3 := hle r.task
+  simp [procGuard, Cfg.fixed] at hg
+  simp only [places, List.count_append, and_true] at e1
+  rcases hg with hg | hg
+  · simp only [hg, if_true] at e1; omega
+  · have := List.count_pos_iff.mpr ((hfl r.task).mp hg)
+    omega
 
 /-! ### `procRec` touches only the inner scheduler, the log and the free list -/
 section procRecFrame
@@ -132,16 +192,184 @@ variable (cfg : Cfg) (thr : Nat) (s : Sys) (r : CRec)
 @[simp] theorem procRec_nextRec : (procRec cfg thr s r).nextRec = s.nextRec := by unfold procRec; split <;> rfl
 @[simp] theorem procRec_scheduled : (procRec cfg thr s r).scheduled = s.scheduled := by unfold procRec; split <;> rfl
 @[simp] theorem procRec_tsOf : (procRec cfg thr s r).tsOf = s.tsOf := by unfold procRec; split <;> rfl
+@[simp] theorem procRec_cbs : (procRec cfg thr s r).cbs = s.cbs := by unfold procRec; split <;> rfl
+@[simp] theorem procRec_sweeping : (procRec cfg thr s r).sweeping = s.sweeping := by unfold procRec; split <;> rfl
+@[simp] theorem procRec_misuse : (procRec cfg thr s r).misuse = s.misuse := by unfold procRec; split <;> rfl
 @[simp] theorem procRec_freed : (procRec cfg thr s r).freed = s.freed ++ [r.id] := by unfold procRec; split <;> rfl
-theorem procRec_asap_sub (u : Task) (h : u ∈ (procRec cfg thr s r).inner.asap) : u ∈ s.inner.asap := by
+theorem procRec_log : (procRec cfg thr s r).log =
+    if procGuard cfg s r then s.log ++ [{ task := r.task, status := .canceled, thread := thr, time := s.clock }] else s.log := by
+  unfold procRec; split <;> rfl
+theorem procRec_running_sub (u : Task) (h : u ∈ (procRec cfg thr s r).inner.running) : u ∈ s.inner.running := by
   unfold procRec at h; split at h
-  · exact asap_cancel _ _ _ h
-  · exact h
-theorem procRec_timed_sub (u : Task) (h : u ∈ (procRec cfg thr s r).inner.timed) : u ∈ s.inner.timed := by
-  unfold procRec at h; split at h
-  · exact List.mem_of_mem_erase h
+  · exact running_cancel _ _ _ h
   · exact h
 end procRecFrame
+
+/-! ### the critical section of a task function's API call -/
+section apiFrame
+variable (s : Sys) (op : CbOp)
+@[simp] theorem apiBody_st : (apiBody s op).st = s.st := by cases op <;> rfl
+@[simp] theorem apiBody_mutex : (apiBody s op).mutex = s.mutex := by cases op <;> rfl
+@[simp] theorem apiBody_clients : (apiBody s op).clients = s.clients := by cases op <;> rfl
+@[simp] theorem apiBody_refCount : (apiBody s op).refCount = s.refCount := by cases op <;> rfl
+@[simp] theorem apiBody_destroyer : (apiBody s op).destroyer = s.destroyer := by cases op <;> rfl
+@[simp] theorem apiBody_released : (apiBody s op).released = s.released := by cases op <;> rfl
+@[simp] theorem apiBody_shouldExit : (apiBody s op).shouldExit = s.shouldExit := by cases op <;> rfl
+@[simp] theorem apiBody_clock : (apiBody s op).clock = s.clock := by cases op <;> rfl
+@[simp] theorem apiBody_inner : (apiBody s op).inner = s.inner := by cases op <;> rfl
+@[simp] theorem apiBody_log : (apiBody s op).log = s.log := by cases op <;> rfl
+@[simp] theorem apiBody_freed : (apiBody s op).freed = s.freed := by cases op <;> rfl
+@[simp] theorem apiBody_cbs : (apiBody s op).cbs = s.cbs := by cases op <;> rfl
+@[simp] theorem apiBody_sweeping : (apiBody s op).sweeping = s.sweeping := by cases op <;> rfl
+@[simp] theorem apiBody_misuse : (apiBody s op).misuse = s.misuse := by cases op <;> rfl
+theorem apiBody_scheduled : (apiBody s op).scheduled = s.scheduled ++ op.target := by
+  cases op <;> simp [apiBody, pushTask, pushCancel, CbOp.target]
+end apiFrame
+
+/-- pushing a task that is not scheduled yet: the hand-over queue gains it -/
+theorem pushTask_T (h : InvT s) (t : Task) (τ : Nat) (ht0 : s.scheduled.count t = 0) : InvT (pushTask s t τ) := by
+  have htp : (places s).count t = 0 := by rw [h.cntPlaces t]; exact ht0
+  have hnot : ∀ l : List Task, (∀ a, l.count a ≤ (places s).count a) → t ∉ l := by
+    intro l hl hin; have := List.count_pos_iff.mpr hin; have := hl t; omega
+  have hnasap : t ∉ s.inner.asap := hnot _ (by intro a; simp only [places, innerTasks, List.count_append]; omega)
+  have hnrun : t ∉ s.inner.running := hnot _ (by intro a; simp only [places, innerTasks, List.count_append]; omega)
+  have hnlog : t ∉ logTasks s := hnot _ (by intro a; simp only [places, List.count_append]; omega)
+  refine ⟨?_, h.flagInv, ?_, ?_, ?_⟩
+  · intro a
+    have := h.cntPlaces a
+    simp only [pushTask, places, handOver, recs, logTasks, innerTasks, List.count_append, List.count_cons,
+      List.count_nil] at this ⊢
+    omega
+  · intro u hu
+    have hne : u ≠ t := fun e => hnasap (e ▸ hu)
+    simp only [pushTask, hne, if_false]
+    exact h.asapTs u hu
+  · intro e he
+    have := h.logInv e he
+    have hne : e.task ≠ t := fun e' => hnlog (by rw [← e']; exact List.mem_map_of_mem he)
+    unfold logOk at *
+    simp only [pushTask, hne, if_false]
+    exact this
+  · intro hne u hu
+    have hne' : u ≠ t := fun e => hnrun (e ▸ hu)
+    simp only [pushTask, hne', if_false]
+    exact h.runTs hne u hu
+
+theorem pushCancel_T (h : InvT s) (t : Task) : InvT (pushCancel s t) := by
+  refine ⟨?_, h.flagInv, h.asapTs, h.logInv, h.runTs⟩
+  intro a
+  have := h.cntPlaces a
+  by_cases hf : t ∈ s.schedQ
+  · have hpos := List.count_pos_iff.mpr hf
+    simp only [pushCancel, places, handOver, recs, logTasks, innerTasks, hf, decide_true, if_true, remTasks_append,
+      remTasks_cons, remTasks_nil, List.count_append, List.count_cons, List.count_nil, List.count_erase,
+      beq_iff_eq] at this ⊢
+    by_cases hta : t = a
+    · subst hta; simp at this ⊢; omega
+    · simp [hta] at this ⊢; omega
+  · simp only [pushCancel, places, handOver, recs, logTasks, innerTasks, hf, decide_false, if_false, remTasks_append,
+      remTasks_cons, remTasks_nil, List.count_append, List.count_cons, List.count_nil, Bool.false_eq_true] at this ⊢
+    simp at this ⊢; omega
+
+theorem pushCancel_K (h : InvK s) (t : Task) : InvK (pushCancel s t) := by
+  constructor; intro id
+  have := h.recCount id
+  simp only [pushCancel, recs, List.map_append, List.map_cons, List.map_nil, List.count_append, List.count_cons,
+    List.count_nil, beq_iff_eq] at this ⊢
+  by_cases hid : s.nextRec = id
+  · subst hid; simp at this ⊢; omega
+  · simp only [hid, if_false] at this ⊢
+    by_cases h1 : id < s.nextRec
+    · have h2 : id < s.nextRec + 1 := by omega
+      simp only [h1, h2, if_true] at this ⊢; omega
+    · have h2 : ¬ id < s.nextRec + 1 := by omega
+      simp only [h1, h2, if_false] at this ⊢; omega
+
+/-- the API call of a task function whose target (if any) has not been pushed yet -/
+theorem apiBody_T (h : InvT s) (op : CbOp) (h0 : ∀ t ∈ op.target, s.scheduled.count t = 0) : InvT (apiBody s op) := by
+  cases op with
+  | none => exact h
+  | scheduleNow t => exact pushTask_T h t 0 (h0 t (by simp [CbOp.target]))
+  | scheduleFuture t τ => exact pushTask_T h t τ (h0 t (by simp [CbOp.target]))
+  | cancel t => exact pushCancel_T h t
+
+theorem apiBody_K (h : InvK s) (op : CbOp) : InvK (apiBody s op) := by
+  cases op with
+  | none => exact h
+  | scheduleNow t => exact h.frame rfl rfl rfl
+  | scheduleFuture t τ => exact h.frame rfl rfl rfl
+  | cancel t => exact pushCancel_K h t
+
+/-- a task function fires: its task enters the log, its target moves to the invoking thread -/
+theorem InvP.invoke (h : InvP progs s) (u : Task) (st : Status) (hs : s'.scheduled = s.scheduled)
+    (hcbs : s'.cbs = s.cbs) (hl : logTasks s' = logTasks s ++ [u]) (hu : u ∉ logTasks s)
+    (hpend : ∀ a, (clientPend s').count a + (pcPendS s'.st).count a
+      = (clientPend s).count a + (pcPendS s.st).count a + (s.cbs.get u st).target.count a)
+    (hcp : ∀ a, (clientPend s).count a ≤ (clientPend s').count a) : InvP progs s' := by
+  constructor
+  · intro t
+    have h1 := h.cntSched t
+    have h2 := cbPend_invoke s.cbs (logTasks s) u st t hu
+    have h3 := hpend t
+    simp only [pendAll, List.count_append, hs, hcbs, hl] at h1 ⊢
+    omega
+  · intro t; have := h.cntProg t; have := hcp t; rw [hs]; omega
+
+/-- a pending target is pushed -/
+theorem InvP.push (h : InvP progs s) (tg : List Task) (hs : s'.scheduled = s.scheduled ++ tg)
+    (hcbs : s'.cbs = s.cbs) (hl : s'.log = s.log)
+    (hpend : ∀ a, (clientPend s').count a + (pcPendS s'.st).count a + tg.count a
+      = (clientPend s).count a + (pcPendS s.st).count a)
+    (hprog : ∀ a, (clientPend s).count a ≤ (clientPend s').count a + tg.count a) : InvP progs s' := by
+  constructor
+  · intro t
+    have h1 := h.cntSched t
+    have h3 := hpend t
+    simp only [pendAll, logTasks, List.count_append, hs, hcbs, hl] at h1 ⊢
+    omega
+  · intro t; have := h.cntProg t; have := hprog t; rw [hs, List.count_append]; omega
+
+/-- a scheduler-thread step that only changes its own control state (and possibly the mutex) -/
+theorem inv_sched_stmove (h : Inv progs s) (hne : s.st.pc ≠ .exited) (st' : SThread) (mx' : Option Nat)
+    (hlc : st'.listCpy = s.st.listCpy) (hcc : st'.cancelCpy = s.st.cancelCpy)
+    (hnow : st'.now ≤ s.st.now ∨ st'.now = s.clock)
+    (hpp : pcPendS st' = pcPendS s.st)
+    (hcpy : cpyOk st')
+    (hmS : mx' = some 0 ↔ schedCS st'.pc = true)
+    (hmO : ∀ k, k ≠ 0 → (mx' = some k ↔ s.mutex = some k))
+    (hex : st'.pc = .exited → s.shouldExit = true)
+    (hrun : runningPhase st'.pc = false → s.sweeping = false → s.inner.running = []) :
+    Inv progs { s with mutex := mx', st := st' } := by
+  refine ⟨h.t.frame ?_ rfl rfl rfl rfl rfl (Nat.le_refl _) (fun _ => hne), h.p.frame rfl (fun _ => rfl) hpp rfl rfl,
+    ?_, ?_, h.k.frame ?_ rfl rfl⟩
+  · simp [places, handOver, recs, innerTasks, logTasks, hlc, hcc]
+  · exact h.m.frameSched (Nat.le_refl _) hnow rfl hcpy hmS hmO
+  · exact h.r.frameSched hne rfl rfl rfl rfl rfl rfl rfl hex hrun
+  · simp [recs, hcc]
+
+theorem pcPendS_afterInvoke (st : SThread) (op : CbOp) (ret : SRet) :
+    pcPendS { st with pc := afterInvokeS op ret } = op.target := by
+  cases op <;> cases ret <;> rfl
+
+theorem cpyOk_afterInvoke_cancels (st : SThread) (op : CbOp) (h : st.listCpy = []) :
+    cpyOk { st with pc := afterInvokeS op .cancels } := by
+  cases op <;> simp [cpyOk, afterInvokeS, SRet.pc, cancelsPhase, h]
+
+theorem cpyOk_afterInvoke_running (st : SThread) (op : CbOp) (h : st.listCpy = []) (h2 : st.cancelCpy = []) :
+    cpyOk { st with pc := afterInvokeS op .running } := by
+  cases op <;> simp [cpyOk, afterInvokeS, SRet.pc, cancelsPhase, h, h2]
+
+theorem schedCS_afterInvoke (op : CbOp) (ret : SRet) : schedCS (afterInvokeS op ret) = false := by
+  cases op <;> cases ret <;> rfl
+
+theorem afterInvoke_ne_exited (op : CbOp) (ret : SRet) : afterInvokeS op ret ≠ .exited := by
+  cases op <;> cases ret <;> simp [afterInvokeS, SRet.pc]
+
+theorem runningPhase_afterInvoke_cancels (op : CbOp) : runningPhase (afterInvokeS op .cancels) = false := by
+  cases op <;> rfl
+
+theorem runningPhase_afterInvoke_running (op : CbOp) : runningPhase (afterInvokeS op .running) = true := by
+  cases op <;> rfl
 
 theorem inv_stepSched (h : Inv progs s) (hs : stepSched Cfg.fixed s = some s') : Inv progs s' := by
   have hne : s.st.pc ≠ .exited := by intro e; simp [stepSched, e] at hs
@@ -149,95 +377,136 @@ theorem inv_stepSched (h : Inv progs s) (hs : stepSched Cfg.fixed s = some s') :
   have hcpy := hm.cpy
   have hmS := hm.mutexS
   have hT := h.t
+  have hP := h.p
+  -- the running list is empty whenever the thread is outside `s_run_all`
+  have hrun0 : runningPhase s.st.pc = false → ∀ pc' : SPc, runningPhase pc' = false → s.sweeping = false →
+      s.inner.running = [] := fun h0 _ _ hsw => h.r.runInv h0 hsw
   cases hpc : s.st.pc with
   | loadExit =>
     simp only [stepSched, hpc] at hs; injection hs with hs; subst hs
-    refine ⟨h.t.frame rfl rfl rfl rfl rfl rfl rfl, ?_, ?_, h.k.frame rfl rfl rfl⟩
-    · refine hm.frameSched (Nat.le_refl _) (Or.inl (Nat.le_refl _)) rfl ?_ ?_ (fun _ _ => Iff.rfl)
-      · cases hse : s.shouldExit <;> simp [cpyOk, hpc, hse] at hcpy ⊢ <;> (try simp [hcpy])
-      · cases hse : s.shouldExit <;> simp [hpc, schedCS, hse] at hmS ⊢ <;> (try simp [hmS])
-    · exact h.r.frameSched hne rfl rfl rfl rfl rfl (by simp)
+    refine inv_sched_stmove h hne _ s.mutex ?_ ?_ ?_ ?_ ?_ ?_ ?_ ?_ ?_
+    · rfl
+    · rfl
+    · exact Or.inl (Nat.le_refl _)
+    · cases hse : s.shouldExit <;> simp [pcPendS, hpc]
+    · cases hse : s.shouldExit <;> simp [cpyOk, cancelsPhase, hpc] at hcpy ⊢ <;> (try simp [hcpy])
+    · cases hse : s.shouldExit <;> simp [hpc, schedCS] at hmS ⊢ <;> (try simp [hmS])
+    · exact fun _ _ => Iff.rfl
+    · cases hse : s.shouldExit <;> simp
+    · exact hrun0 (by simp [hpc, runningPhase]) _
   | lock1 =>
     simp only [stepSched, hpc] at hs
     split at hs
     · rename_i hmx
       injection hs with hs; subst hs
-      refine ⟨h.t.frame rfl rfl rfl rfl rfl rfl rfl, ?_, ?_, h.k.frame rfl rfl rfl⟩
-      · refine hm.frameSched (Nat.le_refl _) (Or.inl (Nat.le_refl _)) rfl ?_ ?_ ?_
-        · simp [cpyOk, hpc] at hcpy ⊢; simp [hcpy]
-        · simp [schedCS]
-        · intro k hk; simp [hmx]; omega
-      · exact h.r.frameSched hne rfl rfl rfl rfl rfl (by simp)
+      refine inv_sched_stmove h hne _ (some 0) ?_ ?_ ?_ ?_ ?_ ?_ ?_ ?_ ?_
+      · rfl
+      · rfl
+      · exact Or.inl (Nat.le_refl _)
+      · simp [pcPendS, hpc]
+      · simp [cpyOk, cancelsPhase, hpc] at hcpy ⊢ <;> (try simp [hcpy])
+      · simp [schedCS]
+      · intro k hk; simp [hmx]; omega
+      · simp
+      · exact hrun0 (by simp [hpc, runningPhase]) _
     · cases hs
   | swap =>
     simp only [stepSched, hpc] at hs; injection hs with hs; subst hs
-    simp [cpyOk, hpc] at hcpy
-    refine ⟨h.t.frame ?_ rfl rfl rfl rfl rfl rfl, ?_, ?_, h.k.frame ?_ rfl rfl⟩
+    simp [cpyOk, cancelsPhase, hpc] at hcpy
+    refine ⟨h.t.frame ?_ rfl rfl rfl rfl rfl (Nat.le_refl _) (fun _ => hne),
+      h.p.frame rfl (fun _ => rfl) (by simp [pcPendS, hpc]) rfl rfl, ?_, ?_, h.k.frame ?_ rfl rfl⟩
     · simp [places, handOver, recs, innerTasks, logTasks, hcpy.1, hcpy.2]
     · refine hm.frameSched (Nat.le_refl _) (Or.inl (Nat.le_refl _)) rfl ?_ ?_ (fun _ _ => Iff.rfl)
       · simp [cpyOk]
       · simp [hpc, schedCS] at hmS ⊢; exact hmS
-    · exact h.r.frameSched hne rfl rfl rfl rfl rfl (by simp)
+    · exact h.r.frameSched hne rfl rfl rfl rfl rfl rfl rfl (by simp)
+        (fun _ hsw => h.r.runInv (by simp [hpc, runningPhase]) hsw)
     · simp [recs, hcpy.2]
   | unlock1 =>
     simp only [stepSched, hpc] at hs; injection hs with hs; subst hs
-    refine ⟨h.t.frame rfl rfl rfl rfl rfl rfl rfl, ?_, ?_, h.k.frame rfl rfl rfl⟩
-    · refine hm.frameSched (Nat.le_refl _) (Or.inl (Nat.le_refl _)) rfl ?_ ?_ ?_
-      · simp [cpyOk]
-      · simp [schedCS]
-      · intro k hk; simp [hpc, schedCS] at hmS; simp [hmS]; omega
-    · exact h.r.frameSched hne rfl rfl rfl rfl rfl (by simp)
+    exact inv_sched_stmove h hne _ none (by rfl) (by rfl) (by exact Or.inl (Nat.le_refl _)) (by simp [pcPendS, hpc])
+      (by simp [cpyOk, cancelsPhase]) (by simp [schedCS])
+      (by intro k hk; simp [hpc, schedCS] at hmS; simp [hmS]; omega) (by simp)
+      (hrun0 (by simp [hpc, runningPhase]) _)
   | feed =>
     simp only [stepSched, hpc] at hs
     split at hs
     · rename_i hl
       injection hs with hs; subst hs
-      refine ⟨h.t.frame rfl rfl rfl rfl rfl rfl rfl, ?_, ?_, h.k.frame rfl rfl rfl⟩
-      · refine hm.frameSched (Nat.le_refl _) (Or.inl (Nat.le_refl _)) rfl ?_ ?_ (fun _ _ => Iff.rfl)
-        · simp [cpyOk, hl]
-        · simp [hpc, schedCS] at hmS ⊢; exact hmS
-      · exact h.r.frameSched hne rfl rfl rfl rfl rfl (by simp)
+      exact inv_sched_stmove h hne _ s.mutex (by rfl) (by rfl) (by exact Or.inl (Nat.le_refl _)) (by simp [pcPendS, hpc])
+        (by simp [cpyOk, cancelsPhase, hl]) (by simp [hpc, schedCS] at hmS ⊢; exact hmS)
+        (fun _ _ => Iff.rfl) (by simp) (hrun0 (by simp [hpc, runningPhase]) _)
     · rename_i t r hl
       injection hs with hs; subst hs
-      refine ⟨?_, ?_, ?_, h.k.frame rfl rfl rfl⟩
-      · refine ⟨hT.wf1, ?_, hT.cntSched, ?_, ?_, hT.logInv⟩
+      refine ⟨?_, h.p.frame rfl (fun _ => rfl) (by simp [pcPendS, hpc]) rfl rfl, ?_, ?_, h.k.frame rfl rfl rfl⟩
+      · refine ⟨?_, ?_, ?_, hT.logInv, ?_⟩
         · intro a
           have := hT.cntPlaces a
           have hc := count_schedule s.inner s.tsOf t a
-          simp only [places, handOver, recs, logTasks, innerTasks, innerT, hl, List.count_append, List.count_cons, beq_iff_eq] at this hc ⊢
+          simp only [places, handOver, recs, logTasks, innerTasks, innerT, hl, List.count_append, List.count_cons,
+            beq_iff_eq] at this hc ⊢
           omega
         · exact flagInv_schedule s.inner s.tsOf t hT.flagInv
         · intro u hu
           rcases asap_schedule s.inner s.tsOf t u hu with h1 | ⟨h1, h2⟩
           · exact hT.asapTs u h1
           · subst h1; exact h2
+        · intro hne' u hu
+          rw [running_schedule] at hu
+          exact hT.runTs hne u hu
       · refine hm.frameSched (Nat.le_refl _) (Or.inl (Nat.le_refl _)) rfl ?_ ?_ (fun _ _ => Iff.rfl)
-        · simp [cpyOk, hpc] at hcpy ⊢
+        · simp [cpyOk, cancelsPhase, hpc] at hcpy ⊢
         · simp [hpc, schedCS] at hmS ⊢; exact hmS
-      · exact h.r.frameSched hne rfl rfl rfl rfl rfl (by simp [hpc])
+      · exact h.r.frameSched hne rfl rfl rfl rfl rfl rfl rfl (by simp [hpc])
+          (fun _ hsw => by rw [running_schedule]; exact h.r.runInv (by simp [hpc, runningPhase]) hsw)
   | cancels =>
     simp only [stepSched, hpc] at hs
     split at hs
     · rename_i hl
       injection hs with hs; subst hs
-      refine ⟨h.t.frame rfl rfl rfl rfl rfl rfl rfl, ?_, ?_, h.k.frame rfl rfl rfl⟩
-      · refine hm.frameSched (Nat.le_refl _) (Or.inl (Nat.le_refl _)) rfl ?_ ?_ (fun _ _ => Iff.rfl)
-        · simp [cpyOk, hpc] at hcpy ⊢; simp [hl, hcpy]
-        · simp [hpc, schedCS] at hmS ⊢; exact hmS
-      · exact h.r.frameSched hne rfl rfl rfl rfl rfl (by simp)
+      exact inv_sched_stmove h hne _ s.mutex (by rfl) (by rfl) (by exact Or.inl (Nat.le_refl _)) (by simp [pcPendS, hpc])
+        (by simp [cpyOk, cancelsPhase, hpc] at hcpy ⊢; simp [hl, hcpy])
+        (by simp [hpc, schedCS] at hmS ⊢; exact hmS)
+        (fun _ _ => Iff.rfl) (by simp) (hrun0 (by simp [hpc, runningPhase]) _)
     · rename_i r rest hl
       injection hs with hs; subst hs
-      refine ⟨?_, ?_, ?_, ?_⟩
-      · refine procRec_T 0 r _ hT.wf1 ?_ hT.cntSched hT.flagInv hT.asapTs hT.logInv (Or.inl rfl)
+      simp [cpyOk, cancelsPhase, hpc] at hcpy
+      have hcnt : ∀ a, (places { s with st := { s.st with pc := SPc.cancels, cancelCpy := rest } }).count a +
+          (if r.removed = true ∧ r.task = a then 1 else 0) = s.scheduled.count a := by
         intro a
         have := hT.cntPlaces a
         simp only [places, handOver, recs, logTasks, innerTasks, hl, remTasks_append, remTasks_cons,
           List.count_append] at this ⊢
         cases hr : r.removed <;> simp [hr, List.count_cons] at this ⊢ <;> omega
+      have hTp := procRec_T 0 r { s with st := { s.st with pc := SPc.cancels, cancelCpy := rest } } hcnt hP.sched_le hT.flagInv
+        hT.asapTs hT.logInv (fun _ => hT.runTs hne) (Or.inl rfl)
+      refine ⟨?_, ?_, ?_, ?_, ?_⟩
+      · exact hTp.frame rfl (by simp) (by simp) (by simp) (by simp) (by simp) (by simp) (fun _ => by simp)
+      · by_cases hg : procGuard Cfg.fixed s r = true
+        · have hfresh := procRec_fresh r { s with st := { s.st with pc := SPc.cancels, cancelCpy := rest } } hcnt hP.sched_le hT.flagInv hg
+          refine hP.invoke r.task .canceled (by simp) (by simp) ?_ hfresh ?_ (fun _ => by simp [clientPend])
+          · have hg' : procGuard Cfg.fixed { s with st := { s.st with pc := SPc.cancels, cancelCpy := rest } } r = true := hg
+            simp [logTasks, procRec_log, hg']
+          · intro a
+            simp only [hg, if_true, pcPendS_afterInvoke, clientPend, procRec_clients]
+            simp [pcPendS, hpc]
+        · have hg' : procGuard Cfg.fixed { s with st := { s.st with pc := SPc.cancels, cancelCpy := rest } } r = false := by
+            have : procGuard Cfg.fixed s r = false := by simpa using hg
+            exact this
+          refine hP.frame (by simp) (fun _ => by simp [clientPend]) ?_ (by simp) ?_
+          · simp only [hg, pcPendS_afterInvoke]; simp [pcPendS, hpc, CbOp.target]
+          · simp [procRec_log, hg']
       · refine hm.frameSched (by simp) (Or.inl (by simp)) (by simp) ?_ ?_ (by simp)
-        · simp [cpyOk, hpc] at hcpy ⊢; simp [hpc, hcpy]
-        · simp [hpc, schedCS] at hmS ⊢; exact hmS
-      · exact h.r.frameSched hne (by simp) (by simp) (by simp) (by simp) (by simp) (by simp [hpc])
+        · exact cpyOk_afterInvoke_cancels _ _ (by simpa using hcpy)
+        · simp [hpc, schedCS] at hmS; simp [schedCS_afterInvoke, hmS]
+      · refine h.r.frameSched hne (by simp) (by simp) (by simp) (by simp) (by simp) (by simp) (by simp)
+          (fun e => absurd e (afterInvoke_ne_exited _ _)) ?_
+        intro _ hsw
+        have := h.r.runInv (by simp [hpc, runningPhase]) hsw
+        apply List.eq_nil_iff_forall_not_mem.mpr
+        intro u hu
+        have := procRec_running_sub _ _ _ _ u hu
+        simp_all
       · constructor; intro id
         have := h.k.recCount id
         simp only [recs, hl, procRec_freed, procRec_cancelQ, procRec_st, procRec_nextRec, List.map_append,
@@ -245,119 +514,199 @@ theorem inv_stepSched (h : Inv progs s) (hs : stepSched Cfg.fixed s = some s') :
         omega
   | readClock =>
     simp only [stepSched, hpc] at hs; injection hs with hs; subst hs
-    refine ⟨h.t.frame rfl rfl rfl rfl rfl rfl rfl, ?_, ?_, h.k.frame rfl rfl rfl⟩
-    · refine hm.frameSched (Nat.le_refl _) (Or.inr rfl) rfl ?_ ?_ (fun _ _ => Iff.rfl)
-      · simp [cpyOk, hpc] at hcpy ⊢; simp [hcpy]
-      · simp [hpc, schedCS] at hmS ⊢; exact hmS
-    · exact h.r.frameSched hne rfl rfl rfl rfl rfl (by simp)
+    exact inv_sched_stmove h hne _ s.mutex (by rfl) (by rfl) (by exact Or.inr rfl) (by simp [pcPendS, hpc])
+      (by simp [cpyOk, cancelsPhase, hpc] at hcpy ⊢; simp [hcpy]) (by simp [hpc, schedCS] at hmS ⊢; exact hmS)
+      (fun _ _ => Iff.rfl) (by simp) (hrun0 (by simp [hpc, runningPhase]) _)
   | runAll =>
     simp only [stepSched, hpc] at hs; injection hs with hs; subst hs
-    refine ⟨?_, ?_, ?_, h.k.frame rfl rfl rfl⟩
-    · have hn : ∀ a, (innerT s.inner).count a ≤ 1 := by
-        intro a; have := hT.cntPlaces a; have := hT.sched_le a
-        simp only [places, innerTasks, innerT, List.count_append] at *; omega
-      refine ⟨hT.wf1, ?_, hT.cntSched, ?_, ?_, ?_⟩
+    refine ⟨?_, h.p.frame rfl (fun _ => rfl) (by simp [pcPendS, hpc]) rfl rfl, ?_, ?_, h.k.frame rfl rfl rfl⟩
+    · refine ⟨?_, ?_, ?_, hT.logInv, ?_⟩
       · intro a
         have := hT.cntPlaces a
-        have hc := count_runAll s.inner s.tsOf s.st.now a
-        simp only [places, handOver, recs, logTasks, innerTasks, innerT, List.count_append, List.map_append,
-          List.map_map] at this hc ⊢
-        have hmap : (List.map ((fun x : Entry => x.task) ∘ fun t => ({ task := t, status := Status.run, thread := 0, time := s.clock } : Entry))
-            (s.inner.runAll s.tsOf s.st.now).2) = (s.inner.runAll s.tsOf s.st.now).2 := by
-          simp [Function.comp_def]
-        rw [hmap]; omega
-      · exact flagInv_runAll s.inner s.tsOf s.st.now hT.flagInv hn
-      · intro u hu; simp [Inner.runAll] at hu
-      · intro e he
-        simp only [List.mem_append, List.mem_map] at he
-        rcases he with he | ⟨t, ht, he⟩
-        · exact hT.logInv e he
-        · subst he
-          refine ⟨Or.inl rfl, fun _ => ⟨rfl, ?_⟩⟩
-          have hnow := hm.nowLe
-          rcases mem_runAll_running _ _ _ _ ht with h1 | ⟨_, h2⟩
-          · have := hT.asapTs t h1; simp only at this ⊢; omega
-          · simp only at h2 ⊢; omega
+        have hc := count_sweepDue s.inner s.tsOf s.st.now a
+        simp only [places, handOver, recs, logTasks, innerTasks, innerT, List.count_append] at this hc ⊢
+        omega
+      · exact flagInv_of_count hT.flagInv rfl (count_sweepDue s.inner s.tsOf s.st.now)
+      · intro u hu; simp [Inner.sweepDue] at hu
+      · intro _ u hu
+        have hnow := hm.nowLe
+        rcases mem_sweepDue_running _ _ _ _ hu with h1 | h1 | ⟨_, h2⟩
+        · exact hT.runTs hne u h1
+        · have := hT.asapTs u h1; simp only at this ⊢; omega
+        · simp only at h2 ⊢; omega
     · refine hm.frameSched (Nat.le_refl _) (Or.inl (Nat.le_refl _)) rfl ?_ ?_ (fun _ _ => Iff.rfl)
-      · simp [cpyOk, hpc] at hcpy ⊢; simp [hcpy]
+      · simp [cpyOk, cancelsPhase, hpc] at hcpy ⊢; simp [hcpy]
       · simp [hpc, schedCS] at hmS ⊢; exact hmS
-    · exact h.r.frameSched hne rfl rfl rfl rfl rfl (by simp)
+    · exact h.r.frameSched hne rfl rfl rfl rfl rfl rfl rfl (by simp) (by simp [runningPhase])
+  | running =>
+    simp only [stepSched, hpc] at hs
+    split at hs
+    · rename_i hpop
+      injection hs with hs; subst hs
+      exact inv_sched_stmove h hne _ s.mutex (by rfl) (by rfl) (by exact Or.inl (Nat.le_refl _)) (by simp [pcPendS, hpc])
+        (by simp [cpyOk, cancelsPhase, hpc] at hcpy ⊢; simp [hcpy]) (by simp [hpc, schedCS] at hmS ⊢; exact hmS)
+        (fun _ _ => Iff.rfl) (by simp) (fun _ _ => popRunning_none hpop)
+    · rename_i t I hpop
+      injection hs with hs; subst hs
+      simp [cpyOk, cancelsPhase, hpc] at hcpy
+      obtain ⟨r, hr, hI⟩ := popRunning_eq hpop
+      have hin : (innerT s.inner).count t ≤ 1 := by
+        have := hT.cntPlaces t; have := hP.sched_le t
+        simp only [places, innerTasks, innerT, List.count_append] at *; omega
+      have hpos : 0 < s.inner.running.count t := by rw [hr]; simp
+      have hfresh : t ∉ logTasks s := by
+        intro hin'
+        have h1 := List.count_pos_iff.mpr hin'
+        have := hT.cntPlaces t; have := hP.sched_le t
+        simp only [places, innerTasks, List.count_append] at *; omega
+      refine ⟨?_, ?_, ?_, ?_, h.k.frame rfl rfl rfl⟩
+      · refine ⟨?_, ?_, ?_, ?_, ?_⟩
+        · intro a
+          have := hT.cntPlaces a
+          have hc := count_popRunning hpop a
+          simp only [places, handOver, recs, logTasks, innerTasks, innerT, List.count_append, List.map_append,
+            List.map_cons, List.map_nil, List.count_cons, List.count_nil, beq_iff_eq] at this hc ⊢
+          omega
+        · exact flagInv_popRunning hpop hT.flagInv hin
+        · intro u hu; subst hI; exact hT.asapTs u hu
+        · intro e he
+          simp only [List.mem_append, List.mem_singleton] at he
+          rcases he with he | he
+          · exact hT.logInv e he
+          · subst he
+            refine ⟨Or.inl rfl, fun _ => ⟨rfl, ?_⟩⟩
+            exact hT.runTs hne t (by rw [hr]; simp)
+        · intro _ u hu
+          subst hI
+          exact hT.runTs hne u (by rw [hr]; exact List.mem_cons_of_mem _ hu)
+      · refine hP.invoke t .run rfl rfl (by simp [logTasks]) hfresh ?_ (fun _ => Nat.le_refl _)
+        intro a
+        simp only [pcPendS_afterInvoke]
+        simp [pcPendS, hpc, clientPend]
+      · refine hm.frameSched (Nat.le_refl _) (Or.inl (Nat.le_refl _)) rfl ?_ ?_ (fun _ _ => Iff.rfl)
+        · exact cpyOk_afterInvoke_running _ _ hcpy.1 hcpy.2
+        · simp [hpc, schedCS] at hmS; simp [schedCS_afterInvoke, hmS]
+      · exact h.r.frameSched hne rfl rfl rfl rfl rfl rfl rfl (fun e => absurd e (afterInvoke_ne_exited _ _))
+          (by simp [runningPhase_afterInvoke_running])
+  | cbLock op ret =>
+    simp only [stepSched, hpc] at hs
+    split at hs
+    · rename_i hmx
+      injection hs with hs; subst hs
+      exact inv_sched_stmove h hne _ (some 0) (by rfl) (by rfl) (by exact Or.inl (Nat.le_refl _)) (by simp [pcPendS, hpc])
+        (by cases ret <;> simp [cpyOk, cancelsPhase, hpc] at hcpy ⊢ <;> (try simp [hcpy]))
+        (by simp [schedCS]) (by intro k hk; simp [hmx]; omega) (by simp)
+        (fun h1 hsw => h.r.runInv (by cases ret <;> simp [runningPhase, hpc] at h1 ⊢) hsw)
+    · cases hs
+  | cbBody op ret =>
+    simp only [stepSched, hpc] at hs; injection hs with hs; subst hs
+    have h0 : ∀ t ∈ op.target, s.scheduled.count t = 0 := by
+      intro t ht
+      have := hP.cntSched t
+      have hp1 : 0 < (pcPendS s.st).count t := by simp [pcPendS, hpc]; exact ht
+      simp only [pendAll, List.count_append] at this; omega
+    refine ⟨?_, ?_, ?_, ?_, ?_⟩
+    · exact (apiBody_T hT op h0).frame rfl rfl (by simp) rfl rfl rfl (Nat.le_refl _) (fun _ => by simpa using hne)
+    · refine hP.push op.target (by simp [apiBody_scheduled]) (by simp) (by simp) ?_ (fun _ => by simp [clientPend])
+      intro a; simp [pcPendS, hpc, clientPend]
+    · refine hm.frameSched (by simp) (Or.inl (by simp)) (by simp) ?_ ?_ (by simp)
+      · cases ret <;> simp [cpyOk, cancelsPhase, hpc] at hcpy ⊢ <;> (try simp [hcpy])
+      · simp [hpc, schedCS] at hmS; simp [schedCS, hmS]
+    · exact h.r.frameSched hne (by simp) (by simp) (by simp) (by simp) (by simp) (by simp) (by simp) (by simp)
+        (fun h1 hsw => by simp only [apiBody_inner]; exact h.r.runInv (by cases ret <;> simp [runningPhase, hpc] at h1 ⊢) hsw)
+    · have := apiBody_K h.k op
+      exact this.frame (by simp [recs]) (by simp) rfl
+  | cbUnlock ret =>
+    simp only [stepSched, hpc] at hs; injection hs with hs; subst hs
+    exact inv_sched_stmove h hne _ none (by rfl) (by rfl) (by exact Or.inl (Nat.le_refl _)) (by simp [pcPendS, hpc])
+      (by cases ret <;> simp [cpyOk, cancelsPhase, hpc] at hcpy ⊢ <;> (try simp [hcpy]))
+      (by simp [schedCS]) (by intro k hk; simp [hpc, schedCS] at hmS; simp [hmS]; omega) (by simp)
+      (fun h1 hsw => h.r.runInv (by cases ret <;> simp [runningPhase, hpc] at h1 ⊢) hsw)
+  | cbNotify ret =>
+    simp only [stepSched, hpc] at hs; injection hs with hs; subst hs
+    exact inv_sched_stmove h hne _ s.mutex (by rfl) (by rfl) (by exact Or.inl (Nat.le_refl _))
+      (by cases ret <;> simp [pcPendS, hpc, SRet.pc])
+      (by cases ret <;> simp [cpyOk, cancelsPhase, hpc, SRet.pc] at hcpy ⊢ <;> (try simp [hcpy]))
+      (by cases ret <;> simp [hpc, schedCS, SRet.pc] at hmS ⊢ <;> exact hmS) (fun _ _ => Iff.rfl)
+      (by cases ret <;> simp [SRet.pc])
+      (fun h1 hsw => h.r.runInv (by cases ret <;> simp [runningPhase, hpc, SRet.pc] at h1 ⊢) hsw)
   | timeout =>
     simp only [stepSched, hpc] at hs; injection hs with hs; subst hs
-    refine ⟨h.t.frame rfl rfl rfl rfl rfl rfl rfl, ?_, ?_, h.k.frame rfl rfl rfl⟩
-    · refine hm.frameSched (Nat.le_refl _) (Or.inl (Nat.le_refl _)) rfl ?_ ?_ (fun _ _ => Iff.rfl)
-      · cases hse : timeoutPos (s.inner.next s.tsOf) s.st.now <;> simp [cpyOk, hpc, hse] at hcpy ⊢ <;> (try simp [hcpy])
-      · cases hse : timeoutPos (s.inner.next s.tsOf) s.st.now <;> simp [hpc, schedCS, hse] at hmS ⊢ <;> (try simp [hmS])
-    · exact h.r.frameSched hne rfl rfl rfl rfl rfl (by simp; intro h; split at h <;> cases h)
+    refine inv_sched_stmove h hne _ s.mutex (by rfl) (by rfl) (by exact Or.inl (Nat.le_refl _)) ?_ ?_ ?_
+      (fun _ _ => Iff.rfl) ?_ (hrun0 (by simp [hpc, runningPhase]) _)
+    · cases hse : timeoutPos (s.inner.next s.tsOf) s.st.now <;> simp [pcPendS, hpc]
+    · cases hse : timeoutPos (s.inner.next s.tsOf) s.st.now <;> simp [cpyOk, cancelsPhase, hpc] at hcpy ⊢ <;> (try simp [hcpy])
+    · cases hse : timeoutPos (s.inner.next s.tsOf) s.st.now <;> simp [hpc, schedCS] at hmS ⊢ <;> (try simp [hmS])
+    · cases hse : timeoutPos (s.inner.next s.tsOf) s.st.now <;> simp
   | lock2 =>
     simp only [stepSched, hpc] at hs
     split at hs
     · rename_i hmx
       injection hs with hs; subst hs
-      refine ⟨h.t.frame rfl rfl rfl rfl rfl rfl rfl, ?_, ?_, h.k.frame rfl rfl rfl⟩
-      · refine hm.frameSched (Nat.le_refl _) (Or.inl (Nat.le_refl _)) rfl ?_ ?_ ?_
-        · simp [cpyOk, hpc] at hcpy ⊢; simp [hcpy]
-        · simp [schedCS]
-        · intro k hk; simp [hmx]; omega
-      · exact h.r.frameSched hne rfl rfl rfl rfl rfl (by simp)
+      exact inv_sched_stmove h hne _ (some 0) (by rfl) (by rfl) (by exact Or.inl (Nat.le_refl _)) (by simp [pcPendS, hpc])
+        (by simp [cpyOk, cancelsPhase, hpc] at hcpy ⊢; simp [hcpy])
+        (by simp [schedCS]) (by intro k hk; simp [hmx]; omega) (by simp) (hrun0 (by simp [hpc, runningPhase]) _)
     · cases hs
   | predClock =>
     simp only [stepSched, hpc] at hs; injection hs with hs; subst hs
-    refine ⟨h.t.frame rfl rfl rfl rfl rfl rfl rfl, ?_, ?_, h.k.frame rfl rfl rfl⟩
-    · refine hm.frameSched (Nat.le_refl _) (Or.inl (Nat.le_refl _)) rfl ?_ ?_ (fun _ _ => Iff.rfl)
-      · simp [cpyOk, hpc] at hcpy ⊢; simp [hcpy]
-      · simp [hpc, schedCS] at hmS ⊢; exact hmS
-    · exact h.r.frameSched hne rfl rfl rfl rfl rfl (by simp)
+    exact inv_sched_stmove h hne _ s.mutex (by rfl) (by rfl) (by exact Or.inl (Nat.le_refl _)) (by simp [pcPendS, hpc])
+      (by simp [cpyOk, cancelsPhase, hpc] at hcpy ⊢; simp [hcpy]) (by simp [hpc, schedCS] at hmS ⊢; exact hmS)
+      (fun _ _ => Iff.rfl) (by simp) (hrun0 (by simp [hpc, runningPhase]) _)
   | predLoad =>
     simp only [stepSched, hpc] at hs; injection hs with hs; subst hs
     generalize (s.shouldExit || !s.schedQ.isEmpty || !s.cancelQ.isEmpty || decide (s.inner.next s.tsOf ≤ s.st.pnow)) = r
-    refine ⟨h.t.frame rfl rfl rfl rfl rfl rfl rfl, ?_, ?_, h.k.frame rfl rfl rfl⟩
-    · refine hm.frameSched (Nat.le_refl _) (Or.inl (Nat.le_refl _)) rfl ?_ ?_ (fun _ _ => Iff.rfl)
-      · cases r <;> simp [cpyOk, hpc] at hcpy ⊢ <;> (try simp [hcpy])
-      · cases r <;> simp [hpc, schedCS] at hmS ⊢ <;> (try simp [hmS])
-    · exact h.r.frameSched hne rfl rfl rfl rfl rfl (by cases r <;> simp)
+    exact inv_sched_stmove h hne _ s.mutex (by rfl) (by rfl) (by exact Or.inl (Nat.le_refl _))
+      (by cases r <;> simp [pcPendS, hpc])
+      (by cases r <;> simp [cpyOk, cancelsPhase, hpc] at hcpy ⊢ <;> (try simp [hcpy]))
+      (by cases r <;> simp [hpc, schedCS] at hmS ⊢ <;> (try simp [hmS]))
+      (fun _ _ => Iff.rfl) (by cases r <;> simp) (hrun0 (by simp [hpc, runningPhase]) _)
   | wait =>
     simp only [stepSched, hpc] at hs; injection hs with hs; subst hs
-    refine ⟨h.t.frame rfl rfl rfl rfl rfl rfl rfl, ?_, ?_, h.k.frame rfl rfl rfl⟩
-    · refine hm.frameSched (Nat.le_refl _) (Or.inl (Nat.le_refl _)) rfl ?_ ?_ ?_
-      · simp [cpyOk, hpc] at hcpy ⊢; simp [hcpy]
-      · simp [schedCS]
-      · intro k hk; simp [hpc, schedCS] at hmS; simp [hmS]; omega
-    · exact h.r.frameSched hne rfl rfl rfl rfl rfl (by simp)
+    exact inv_sched_stmove h hne _ none (by rfl) (by rfl) (by exact Or.inl (Nat.le_refl _)) (by simp [pcPendS, hpc])
+      (by simp [cpyOk, cancelsPhase, hpc] at hcpy ⊢; simp [hcpy]) (by simp [schedCS])
+      (by intro k hk; simp [hpc, schedCS] at hmS; simp [hmS]; omega) (by simp) (hrun0 (by simp [hpc, runningPhase]) _)
   | blocked =>
     simp only [stepSched, hpc] at hs; injection hs with hs; subst hs
-    refine ⟨h.t.frame rfl rfl rfl rfl rfl rfl rfl, ?_, ?_, h.k.frame rfl rfl rfl⟩
-    · refine hm.frameSched (Nat.le_refl _) (Or.inl (Nat.le_refl _)) rfl ?_ ?_ (fun _ _ => Iff.rfl)
-      · simp [cpyOk, hpc] at hcpy ⊢; simp [hcpy]
-      · simp [hpc, schedCS] at hmS ⊢; exact hmS
-    · exact h.r.frameSched hne rfl rfl rfl rfl rfl (by simp)
+    exact inv_sched_stmove h hne _ s.mutex (by rfl) (by rfl) (by exact Or.inl (Nat.le_refl _)) (by simp [pcPendS, hpc])
+      (by simp [cpyOk, cancelsPhase, hpc] at hcpy ⊢; simp [hcpy]) (by simp [hpc, schedCS] at hmS ⊢; exact hmS)
+      (fun _ _ => Iff.rfl) (by simp) (hrun0 (by simp [hpc, runningPhase]) _)
   | reacq b =>
     simp only [stepSched, hpc] at hs
     split at hs
     · rename_i hmx
       injection hs with hs; subst hs
-      refine ⟨h.t.frame rfl rfl rfl rfl rfl rfl rfl, ?_, ?_, h.k.frame rfl rfl rfl⟩
-      · refine hm.frameSched (Nat.le_refl _) (Or.inl (Nat.le_refl _)) rfl ?_ ?_ ?_
-        · simp [cpyOk, hpc] at hcpy ⊢; cases b <;> simp [hcpy]
-        · cases b <;> simp [schedCS]
-        · intro k hk; simp [hmx]; omega
-      · exact h.r.frameSched hne rfl rfl rfl rfl rfl (by cases b <;> simp)
+      exact inv_sched_stmove h hne _ (some 0) (by rfl) (by rfl) (by exact Or.inl (Nat.le_refl _))
+        (by cases b <;> simp [pcPendS, hpc])
+        (by cases b <;> simp [cpyOk, cancelsPhase, hpc] at hcpy ⊢ <;> (try simp [hcpy]))
+        (by cases b <;> simp [schedCS]) (by intro k hk; simp [hmx]; omega) (by cases b <;> simp)
+        (hrun0 (by simp [hpc, runningPhase]) _)
     · cases hs
   | unlock2 =>
     simp only [stepSched, hpc] at hs; injection hs with hs; subst hs
-    refine ⟨h.t.frame rfl rfl rfl rfl rfl rfl rfl, ?_, ?_, h.k.frame rfl rfl rfl⟩
-    · refine hm.frameSched (Nat.le_refl _) (Or.inl (Nat.le_refl _)) rfl ?_ ?_ ?_
-      · simp [cpyOk, hpc] at hcpy ⊢; simp [hcpy]
-      · simp [schedCS]
-      · intro k hk; simp [hpc, schedCS] at hmS; simp [hmS]; omega
-    · exact h.r.frameSched hne rfl rfl rfl rfl rfl (by simp)
+    exact inv_sched_stmove h hne _ none (by rfl) (by rfl) (by exact Or.inl (Nat.le_refl _)) (by simp [pcPendS, hpc])
+      (by simp [cpyOk, cancelsPhase, hpc] at hcpy ⊢; simp [hcpy]) (by simp [schedCS])
+      (by intro k hk; simp [hpc, schedCS] at hmS; simp [hmS]; omega) (by simp) (hrun0 (by simp [hpc, runningPhase]) _)
   | exited => exact absurd hpc hne
+
+theorem inv_stepSpurious (h : Inv progs s) (hs : stepSpurious s = some s') : Inv progs s' := by
+  unfold stepSpurious at hs
+  split at hs
+  · rename_i hpc
+    injection hs with hs; subst hs
+    have hcpy := h.m.cpy
+    have hmS := h.m.mutexS
+    have hne : s.st.pc ≠ .exited := by rw [hpc]; simp
+    exact inv_sched_stmove h hne _ s.mutex (by rfl) (by rfl) (by exact Or.inl (Nat.le_refl _)) (by simp [pcPendS, hpc])
+      (by simp [cpyOk, cancelsPhase, hpc] at hcpy ⊢; simp [hcpy]) (by simp [hpc, schedCS] at hmS ⊢; exact hmS)
+      (fun _ _ => Iff.rfl) (by simp) (fun _ hsw => h.r.runInv (by simp [hpc, runningPhase]) hsw)
+  · cases hs
 
 theorem InvR.frameEq (h : InvR s)
     (hc : s'.clients = s.clients) (hrc : s'.refCount = s.refCount) (hd : s'.destroyer = s.destroyer)
     (hrel : s'.released = s.released) (hse : s'.shouldExit = s.shouldExit) (hpc : s'.st.pc = s.st.pc)
-    (hq : s'.schedQ = s.schedQ) (hcq : s'.cancelQ = s.cancelQ) (hi : s'.inner = s.inner) : InvR s' := by
-  refine ⟨?_, ?_, ?_, ?_, ?_, ?_, ?_, ?_⟩
+    (hq : s'.schedQ = s.schedQ) (hcq : s'.cancelQ = s.cancelQ) (hi : s'.inner = s.inner)
+    (hsw : s'.sweeping = s.sweeping) (hmis : s'.misuse = s.misuse) : InvR s' := by
+  refine ⟨?_, ?_, ?_, ?_, ?_, ?_, ?_, ?_, ?_, ?_, ?_⟩
   · rw [hrc, hc]; exact h.refSum
   · rw [hc]; exact h.cwf
   · rw [hc, hd]; exact h.dIn
@@ -366,30 +715,19 @@ theorem InvR.frameEq (h : InvR s)
   · intro j c hdj hcj
     rw [hd] at hdj; rw [hc] at hcj
     have := h.dPhase j c hdj hcj
-    cases hp : c.pc <;> simp only [hp, phaseOk, qEmpty, iEmpty] at this ⊢ <;>
-      simp only [hrel, hpc, hq, hcq, hi] <;> exact this
+    have e : phaseOk s' c.pc = phaseOk s c.pc := by
+      cases c.pc <;> simp only [phaseOk, joined, qEmpty, iEmpty, hrel, hpc, hq, hcq, hi, hsw, hmis]
+    rw [e]; exact this
   · rw [hrel, hd]; exact h.relD
   · rw [hse, hd, hpc]; exact h.exitFlag
-
-theorem inv_stepSpurious (h : Inv progs s) (hs : stepSpurious s = some s') : Inv progs s' := by
-  unfold stepSpurious at hs
-  split at hs
-  · rename_i hpc
-    injection hs with hs; subst hs
-    have hm := h.m
-    have hcpy := hm.cpy
-    have hmS := hm.mutexS
-    have hne : s.st.pc ≠ .exited := by rw [hpc]; simp
-    refine ⟨h.t.frame rfl rfl rfl rfl rfl rfl rfl, ?_, ?_, h.k.frame rfl rfl rfl⟩
-    · refine hm.frameSched (Nat.le_refl _) (Or.inl (Nat.le_refl _)) rfl ?_ ?_ (fun _ _ => Iff.rfl)
-      · simp [cpyOk, hpc] at hcpy ⊢; simp [hcpy]
-      · simp [hpc, schedCS] at hmS ⊢; exact hmS
-    · exact h.r.frameSched hne rfl rfl rfl rfl rfl (by simp)
-  · cases hs
+  · rw [hpc, hsw, hi]; exact h.runInv
+  · rw [hsw, hd]; exact h.sweepD
+  · rw [hmis, hd]; exact h.misuseD
 
 theorem inv_tick (h : Inv progs s) (d : Nat) : Inv progs { s with clock := s.clock + d } := by
-  refine ⟨h.t.frame rfl rfl rfl rfl rfl rfl rfl, ?_, h.r.frameEq rfl rfl rfl rfl rfl rfl rfl rfl rfl,
-    h.k.frame rfl rfl rfl⟩
+  refine ⟨h.t.frame rfl rfl rfl rfl rfl rfl (Nat.le_add_right _ _) (fun e => e),
+    h.p.frame rfl (fun _ => rfl) rfl rfl rfl, ?_,
+    h.r.frameEq rfl rfl rfl rfl rfl rfl rfl rfl rfl rfl rfl, h.k.frame rfl rfl rfl⟩
   have hm := h.m
   exact ⟨by have := hm.nowLe; simp only; omega, hm.cpy, hm.mutexS, hm.mutexC, hm.mutexB⟩
 
